@@ -52,7 +52,8 @@ def check(case):
     py_seed_random(case["seed"])
     q = ArrayDelayQueue.setup_queue(nrxn, ncols, dt)
     start = case["t0_steps"]
-    q.py_set_current_time(start * dt)
+    frac = float(case.get("t0_frac", 0.0))       # the queue's grid is start + k dt for any starting time, not the multiples of dt
+    q.py_set_current_time((start + frac) * dt)
     model = ModelQ(nrxn, ncols, start + 1)
     shadows = []           # (label, queue, model) objects that must stay as they were
     advances = 0
@@ -65,8 +66,8 @@ def check(case):
 
     def verify_time(where):
         t = q.py_get_next_queue_time()
-        if t != model.cur * dt:
-            res.fail(("next_queue_time", where), got=float(t), expected=model.cur * dt)
+        if t != (model.cur + frac) * dt:
+            res.fail(("next_queue_time", where), got=float(t), expected=(model.cur + frac) * dt)
             return False
         return True
 
@@ -129,8 +130,8 @@ def check(case):
                 k = model.cur + i
                 exp = model.slots.get(k, [0.0] * nrxn)
                 (t1, a), (t2, b) = c1[i], c2[i]
-                if t1 != k * dt or t2 != k * dt:
-                    res.fail(("partition_slot_time",), got=[t1, t2], expected=k * dt)
+                if t1 != (k + frac) * dt or t2 != (k + frac) * dt:
+                    res.fail(("partition_slot_time",), got=[t1, t2], expected=(k + frac) * dt)
                     break
                 for r_ in range(nrxn):
                     if a[r_] + b[r_] != exp[r_] or a[r_] < 0 or b[r_] < 0 or a[r_] != int(a[r_]) or b[r_] != int(b[r_]):
@@ -161,8 +162,8 @@ def check(case):
     if not res.fails:
         # drain: everything added has been delivered exactly once at its model time
         for (t, got) in _drain(q, nrxn, ncols + 1):
-            if t != model.cur * dt:
-                res.fail(("next_queue_time", "drain"), got=t, expected=model.cur * dt)
+            if t != (model.cur + frac) * dt:
+                res.fail(("next_queue_time", "drain"), got=t, expected=(model.cur + frac) * dt)
                 break
             exp = model.pop()
             if got != exp:
@@ -174,7 +175,7 @@ def check(case):
     if not res.fails:
         for label, sq, sm in shadows:
             for (t, got) in _drain(sq, nrxn, ncols):
-                exp_t = sm.cur * dt
+                exp_t = (sm.cur + frac) * dt
                 exp = sm.pop()
                 if t != exp_t or got != exp:
                     res.fail(("not_independent", label), time=t, expected_time=exp_t, got=got, expected=exp)
@@ -209,7 +210,7 @@ def cases(draw, max_ops):
                    st.integers(0, 2), st.integers(0, 2)).map(build)
     lo = draw(st.sampled_from([1, 4, 12, 25]))
     ops = draw(st.lists(op, min_size=min(lo, max_ops), max_size=max_ops))
-    return {"kind": "queue", "nrxn": nrxn, "ncols": ncols, "dt": dt, "t0_steps": draw(st.integers(0, 40)),
+    return {"kind": "queue", "nrxn": nrxn, "ncols": ncols, "dt": dt, "t0_steps": draw(st.integers(0, 40)), "t0_frac": draw(st.sampled_from([0.0, 0.0, 0.25, 0.5, 0.125])),
             "seed": draw(st.integers(1, 2 ** 31)), "ops": ops}
 
 
